@@ -99,7 +99,55 @@ def h_reader(d, lang, n, nlex, fmt, corrupt):
     return _check_read(lang, t2, fmt == 'auto', fmt)
 
 
+def h_reader_two_languages(d, fmt, first):
+    """one process reads the same feature-less tree under both grammars (the active language is switched in between): every
+    read is labelled by the grammar that is active when it is read"""
+    from lib import env, trees
+    from depccg.cat import Category
+    from depccg.tree import Tree, ScoredTree
+    from depccg.types import Token
+    from depccg.tools import reader
+    from depccg.lang import set_global_language_to
+    env.install_open(reader)
+    w = d.string('word', 1, TOKEN_AL)
+    l = Tree.make_terminal(Token(word=w, lemma='l', pos='P', entity='O', chunk='I'), Category.parse('S/S'))
+    r = Tree.make_terminal(Token(word='b', lemma='l', pos='P', entity='O', chunk='I'), Category.parse('S'))
+    t = Tree.make_binary(Category.parse('S'), l, r, 'fa', '>', True)
+    out = []
+    for lang in ([first, 'ja' if first == 'en' else 'en', first]):
+        set_global_language_to(lang)
+        try:
+            if fmt == 'auto':
+                from depccg.printer.auto import auto_of
+                f = env.write_file('c12.auto', ['ID=1', auto_of(t)])
+                t2 = list(reader.read_auto(f))[0].tree
+            elif fmt == 'ptb':
+                from depccg.printer.ptb import ptb_of
+                f = env.write_file('c12.ptb', [ptb_of(t)])
+                t2 = list(reader.read_ptb(f))[0].tree
+            else:
+                from depccg.printer.xml import xml_of
+                f = env.xml_file('c12.xml', xml_of([[ScoredTree(t, -1.0)]]))
+                t2 = list(reader.read_xml(f))[0].tree
+        except Exception:
+            set_global_language_to('en')
+            return True
+        res = _check_read(lang, t2, fmt == 'auto', fmt + '.two-languages.' + lang)
+        if res is not True:
+            set_global_language_to('en')
+            return res
+    set_global_language_to('en')
+    return True
+
+
+from engines.pysym.explore import TOKEN as TOKEN_AL
+
+
 def p_obligations(tier):
+    from lib.framework import Obligation as _Ob
+    for fmt in ('auto', 'ptb', 'xml'):
+        for first in ('en', 'ja'):
+            yield _Ob('C12.reader-two-languages[%s,first=%s]' % (fmt, first), 'h_reader_two_languages', dict(fmt=fmt, first=first), cost=3)
     from lib.framework import Obligation
     q = tier == 'quick'
     for lang, fmts in (('en', ('auto', 'ptb', 'xml', 'jigg_xml')), ('ja', ('auto', 'ptb', 'jigg_xml'))):
